@@ -694,7 +694,15 @@ static void do_op(struct op *p)
 	} else if (!strcmp(n, "child")) {
 		/* environment: a[0] pid, a[1] what (0 exit 1 killed 2 stop 3 cont), a[2] arg */
 		simk_child_event((pid_t)p->a[0], (int)p->a[1], (int)p->a[2]);
-		simk_yield();
+		if (!p->a[3])		/* a[3] = 1: carry on without giving the other threads a turn */
+			simk_yield();
+	} else if (!strcmp(n, "childof")) {
+		/* as "child" for the process of wait interest a[0] (whatever pid it got) */
+		OBJ(K_WAIT);
+		if (!o->reg) { skip(n, id); goto out; }
+		simk_child_event(((struct iv_wait_interest *)o->mem)->pid, (int)p->a[1], (int)p->a[2]);
+		if (!p->a[3])
+			simk_yield();
 	} else if (!strcmp(n, "forkexit")) {
 		simk_fork_exit = (int)p->a[0];
 	} else if (!strcmp(n, "stranger")) {
@@ -858,6 +866,13 @@ static int do_env(struct op *p)
 
 	if (!strcmp(n, "child")) {
 		simk_child_event((pid_t)p->a[0], (int)p->a[1], (int)p->a[2]);
+		return 1;
+	}
+	if (!strcmp(n, "childof")) {
+		struct obj *w = (id >= 1 && id <= MAXO) ? &O[K_WAIT][id] : NULL;
+		if (w == NULL || !w->declared || !w->reg)
+			return 0;
+		simk_child_event(((struct iv_wait_interest *)w->mem)->pid, (int)p->a[1], (int)p->a[2]);
 		return 1;
 	}
 	if (!strcmp(n, "raise")) {
